@@ -34,6 +34,7 @@ XML = """<schema>
  </sectiontype>
  <section type="tb" name="*" attribute="sb"/>
  <section type="tc" name="*" attribute="sc"/>
+ <section type="tc" name="sq" attribute="sq"/>
  <key name="ki" datatype="integer" default="3"/>
  <key name="ks" datatype="string-list" default="a b"/>
  <multikey name="km"><default>m1</default></multikey>
@@ -66,6 +67,8 @@ OPS = {
     17: ('overrides', ['<tb x/>'], ('x/da=9', 'x/kn=7')),
     # a conversion fault on a stock datatype after a component named that datatype by its dotted path
     18: ('import', ['%import vfq_dt', '<pd/>'], ()),
+    # the fixed name of a section slot used as a key (a '+' key is declared in the same container)
+    19: ('matching', ['sq 1'], ()),
 }
 
 
@@ -155,7 +158,8 @@ class C13(Harness):
         us = []
         for first in range(len(OPS)):
             us.append({'n': n, 'first': first, 'check': 'outcome'})
-            us.append({'n': n, 'first': first, 'check': 'digest'})
+            # what an operation does to the schema's description shows right after it: one step shorter
+            us.append({'n': max(2, n - 1), 'first': first, 'check': 'digest'})
         return us
 
     def inputs(self, eng, unit):
